@@ -80,7 +80,7 @@ static std::string meta_block(Rng &r)
 static void run_apropos(Rng &r)
 {
     tg::GenOpts o;
-    o.max_ports = 10; o.max_depth = 3; o.allow_derived = false; o.p_dup = 0; o.p_default = 0; o.max_enum = 12;
+    o.max_ports = 10; o.max_depth = 3; o.allow_derived = false; o.p_dup = 0; o.p_default = 0; o.max_enum = 12; o.p_slash_leaf = 0.12;
     tg::Tree t;
     t.root = tg::gen_table(t, r, o, 0);
     tg::realize(t, t.root, r, o);
@@ -113,6 +113,7 @@ static void run_apropos(Rng &r)
         const rtosc::Port *got = t.root->lib->apropos(rec.addr.c_str());
         count("apropos.lookups");
         if(rec.addr.find_first_of("0123456789") != std::string::npos) count("apropos.lookups_enumerated");
+        if(rec.addr.back() == '/') { count("apropos.lookups_leaf_with_trailing_slash"); if(std::count(rec.addr.begin(), rec.addr.end(), '/') >= 3) count("apropos.lookups_deep_leaf_with_trailing_slash"); }
         if(got != rec.port) fail("apropos_walked_address", {}, tdesc + " address=" + rec.addr, got ? std::string("port ") + got->name : "NULL", std::string("port ") + rec.port->name);
     }
 }
